@@ -37,6 +37,10 @@ func (m *F84Model) Distance(seq1 []uint8, seq2 []uint8, weights []float64) (floa
 
 	trS, trV, _, _, total := countMutations(seq1, seq2, m.selectedSites, weights)
 	trS, trV = trS/total, trV/total
+	// no counted difference: distance 0, also when an absent base makes a, b or c 0 (0/0 below)
+	if trS == 0 && trV == 0 {
+		return 0, nil
+	}
 	if m.gamma {
 		dist = 2.0 * m.alpha * (m.a*gammaPow((1.0-trS/(2.0*m.a)-(m.a-m.b)*trV/(2.0*m.a*m.c)), -1./m.alpha) +
 			(m.b+m.c-m.a)*gammaPow((1-trV/(2.0*m.c)), -1./m.alpha) -
